@@ -646,5 +646,5 @@ func classify(c Case) fx.Class {
 
 func TestSequences(t *testing.T) {
 	fx.Prelease(3)
-	fx.Run(t, fx.Spec[Case]{Prop: "C04", Name: "sequences", Quick: 600, Thorough: 8000, Gen: gen, Run: run, Class: classify})
+	fx.Run(t, fx.Spec[Case]{Prop: "C04", Name: "sequences", Journal: true, Quick: 600, Thorough: 8000, Gen: gen, Run: run, Class: classify})
 }
